@@ -1,4 +1,4 @@
-import FcpptProofs.C11.Main
+import FcpptProofs.C11.Signal
 set_option linter.unusedSimpArgs false
 set_option linter.unusedVariables false
 /-!
@@ -160,5 +160,129 @@ theorem moveAssign_from_unlinked_corrupts_list :
                                  .moveCtor 3 2, .moveAssign 2 0, .delElem 3]
         walk σ (.head 0) 12) = .error .fuel := by
   decide
+
+
+/-! ## Signals -/
+
+/-- every signal operation of a history is valid as an operation on the connection lists -/
+def sigValidRun (R : Rings) : List Sig.Op → Bool
+  | [] => true
+  | op :: ops => valid R op.toList && sigValidRun (Spec.step R op.toList) ops
+
+def sigRun (st : Sig.State) : List Sig.Op → M Sig.State
+  | [] => .ok st
+  | op :: ops => do
+    let st ← Sig.step st op
+    sigRun st ops
+
+/-- **Every signal history** (connect, connection death, signal move / move-assignment / destruction in
+any order) runs without touching a dead connection and keeps the connection lists represented. -/
+theorem sig_history_rep {st : Sig.State} {R : Rings} (h : SRep st R) (ops : List Sig.Op)
+    (hv : sigValidRun R ops = true) :
+    ∃ st', sigRun st ops = .ok st' ∧ SRep st' (Spec.run R (ops.map Sig.Op.toList)) := by
+  induction ops generalizing st R with
+  | nil => exact ⟨st, rfl, h⟩
+  | cons op ops ih =>
+    simp only [sigValidRun, Bool.and_eq_true] at hv
+    obtain ⟨s1, h1, r1⟩ := sig_step_rep h op hv.1
+    obtain ⟨s2, h2, r2⟩ := ih r1 hv.2
+    exact ⟨s2, by simp [sigRun, h1, bind, Except.bind, h2], by simpa [Spec.run] using r2⟩
+
+private theorem nodup_of_map_elem : ∀ {xs : List Nat}, (xs.map Node.elem).Nodup → xs.Nodup
+  | [], _ => List.nodup_nil
+  | x :: xs, h => by
+    simp only [List.map_cons, List.nodup_cons, List.mem_map, not_exists, not_and] at h ⊢
+    exact ⟨fun hx => h.1 x hx rfl, nodup_of_map_elem h.2⟩
+
+private theorem mapM_conns {st : Sig.State} {R : Rings} (h : SRep st R) :
+    ∀ l : List Node, (∀ n ∈ l, (∃ e, n = Node.elem e) ∧ n ∈ nodes R) →
+    ∃ (xs : List Nat) (cs : List Sig.Conn), l = xs.map Node.elem ∧ xs.map st.conn = cs.map some ∧
+      l.mapM (fun n => match n with
+        | .elem x => (match st.conn x with
+          | some c => .ok c.callback
+          | none => .error .oob)
+        | .head _ => .error .oob) = (.ok (cs.map (·.callback)) : M (List Nat)) := by
+  intro l
+  induction l with
+  | nil => intro _; exact ⟨[], [], rfl, rfl, rfl⟩
+  | cons n t ih =>
+    intro hl
+    obtain ⟨⟨e, rfl⟩, hn⟩ := hl n (by simp)
+    obtain ⟨c, hc⟩ := h.conn e hn
+    obtain ⟨xs, cs, h1, h2, h3⟩ := ih (fun m hm => hl m (by simp [hm]))
+    refine ⟨e :: xs, c :: cs, by simp [h1], by simp [hc, h2], ?_⟩
+    simp [List.mapM_cons, hc, h3, bind, Except.bind, pure, Except.pure]
+
+/-- **Calling a signal invokes exactly the callbacks of the live connections in its list, once each,
+in connection order**: the connection ids `xs` are the abstract members (pairwise distinct, all with a
+live payload `cs`), and the invoked callbacks are theirs, in that order. -/
+theorem call_invokes_live_once_in_order {st : Sig.State} {R : Rings} (h : SRep st R) {s : Nat} {l : List Node}
+    (hm : members R s = some l) {fuel : Nat} (hf : l.length ≤ fuel) :
+    ∃ (xs : List Nat) (cs : List Sig.Conn), l = xs.map Node.elem ∧ xs.Nodup ∧ xs.map st.conn = cs.map some ∧
+      Sig.invoked st s fuel = .ok (cs.map (·.callback)) := by
+  have hr := members_mem hm
+  have hnd := (List.nodup_cons.1 (h.rep.wf.nodup _ hr)).2
+  obtain ⟨xs, cs, h1, h2, h3⟩ := mapM_conns h l (fun n hn =>
+    ⟨h.rep.wf.tail _ hr n hn, mem_nodes.2 ⟨_, hr, by simp [hn]⟩⟩)
+  refine ⟨xs, cs, h1, ?_, h2, ?_⟩
+  · rw [h1] at hnd; exact nodup_of_map_elem hnd
+  · simp only [Sig.invoked, walk_members h.rep hm hf, bind, Except.bind]
+    exact h3
+
+/-- **The result of a call is the left fold of the combiner over the callback results, starting from
+the initial value** (`fs` = the callbacks invoked; with no connection the initial value is returned and
+the combiner is not needed). -/
+theorem call_is_left_fold (cb : Nat → Nat → Nat) (comb : Nat → Nat → Nat → Nat) {st : Sig.State} {s fuel : Nat}
+    {fs : List Nat} (hi : Sig.invoked st s fuel = .ok fs) (init arg : Nat) :
+    (fs = [] → Sig.call cb comb st s fuel init arg = .ok ([], init)) ∧
+    (∀ c, st.combiner s = some c →
+      Sig.call cb comb st s fuel init arg = .ok (fs, fs.foldl (fun acc f => comb c acc (cb f arg)) init)) := by
+  constructor
+  · intro e; subst e
+    simp [Sig.call, hi, bind, Except.bind]
+  · intro c hc
+    cases fs with
+    | nil => simp [Sig.call, hi, bind, Except.bind]
+    | cons f t => simp [Sig.call, hi, hc, bind, Except.bind]
+
+/-- **The unregister function of a connection runs exactly once when the connection dies**: its
+counter goes up by one, no other counter changes, and the connection is gone afterwards (so it cannot
+die again). -/
+theorem unregister_exactly_once {st st' : Sig.State} {x u : Nat} {c : Sig.Conn} (hc : st.conn x = some c)
+    (hu : c.unreg = some u) (hs : Sig.step st (.disconnect x) = .ok st') :
+    st'.unregCount u = st.unregCount u + 1 ∧ (∀ v, v ≠ u → st'.unregCount v = st.unregCount v) ∧
+    st'.conn x = none := by
+  simp only [Sig.step, hc, hu, bind, Except.bind] at hs
+  split at hs
+  · cases hs
+  · split at hs
+    · cases hs
+    · cases hs
+      exact ⟨by simp, fun v hv => by simp [hv], by simp⟩
+
+/-- … and no other operation (nor the death of a connection without unregister function) runs any. -/
+theorem unregister_only_on_death {st st' : Sig.State} {op : Sig.Op}
+    (hop : ∀ x c, op = .disconnect x → st.conn x = some c → c.unreg = none)
+    (hs : Sig.step st op = .ok st') : st'.unregCount = st.unregCount := by
+  cases op with
+  | disconnect x =>
+    simp only [Sig.step] at hs
+    cases hc : st.conn x with
+    | none => simp [hc] at hs
+    | some c =>
+      have := hop x c rfl hc
+      simp only [hc, this, bind, Except.bind] at hs
+      split at hs
+      · cases hs
+      · cases hs; rfl
+  | newSig s c => simp only [Sig.step, bind, Except.bind] at hs; split at hs <;> cases hs; rfl
+  | connect x s f u => simp only [Sig.step, bind, Except.bind] at hs; split at hs <;> cases hs; rfl
+  | moveCtor s' s => simp only [Sig.step, bind, Except.bind] at hs; split at hs <;> cases hs; rfl
+  | moveAssign s s2 => simp only [Sig.step, bind, Except.bind] at hs; split at hs <;> cases hs; rfl
+  | delSig s => simp only [Sig.step, bind, Except.bind] at hs; split at hs <;> cases hs; rfl
+
+/-- non-vacuity: a signal history with connect, death, move, move-assignment -/
+example : sigValidRun [] [.newSig 0 1, .connect 0 0 5 (some 1), .connect 1 0 6 none, .moveCtor 1 0,
+    .connect 2 0 7 (some 2), .moveAssign 0 1, .disconnect 0, .delSig 0, .disconnect 1] = true := by decide
 
 end Fcppt.C11
